@@ -8,7 +8,7 @@ where <form> names how the option value is built (see MEMO_FORMS).  The generato
 C09 (harness/props/c09.py imports them)."""
 import numpy as np
 from harness.driver import call_impl, cz, cnat, czlist, cgrid, clist, cres
-from harness.twins import Logged1, make_rule, coq_rule_spec, PredLt
+from harness.twins import Logged1, make_rule, coq_rule_spec, PredLt, dress, RULE_DRESSINGS
 
 ID = 'C03'
 COQ_IMPORTS = ('From Coq Require Import String.\n'
@@ -25,13 +25,18 @@ ASSUMPTIONS = ['rules are pure (Lin: sum(w_i * n_i) mod k; Aff: (sum(w_i * n_i) 
                'rule results outside the dtype range: bucket outofrange/* only, not compared with the model (open finding cast-path)',
                'an unsupported option value must be rejected only when at least one step is attempted (the option is '
                'examined inside the loop body); any exception class counts as rejection']
-TRUSTED = ['Python twins Lin1 / Aff1 / Logged1 / PredLt of harness/twins.py']
+TRUSTED = ['Python twins Lin1 / Aff1 / Logged1 / PredLt and the shape-only wrappers twins.dress of harness/twins.py']
 
 # hit-rate bookkeeping, reported through NOTES (the driver reads NOTES after the run)
 _STATS = {'True': [0, 0], 'recursive': [0, 0]}     # mode -> [rule calls, cells computed]
 NOTES = ['every (N, r) with 1 <= r <= N <= 9 and every T in 1..6 is enumerated in all three modes; quick: alphabet, '
          'fixed/callable and the shape of the initial row cycle; thorough: crossed completely',
          'cache hit rate: (filled in by the run)',
+         'dress/<how>/*: every shape of twins.RULE_DRESSINGS is applied outermost to the logging twin (>= 6 cases each, the '
+         'four user-subclass shapes sub:BaseRule / sub:NKSRule / sub:BinaryRule / sub:TotalisticRule >= 12), memoize=True and '
+         '"recursive", fixed and callable, N in {3,5,6,7,9,10,11,13}, r up to N, rules whose weights differ mod k so that '
+         'equal-sum neighbourhoods map to different values; objdtype/*: dtype=object rows of Python ints (small, and beyond '
+         '2**64 with moduli beyond 2**64), three modes, fixed and callable',
          'float/signed_zero is decided by the Python oracle alone (the Z-valued model cannot express -0.0; its Coq case is the '
          'always-true CNotCompared): float64 / float32 automata over {0.0, -0.0, 1.0}, r = 1..2, T = 3..5, three pure rules that '
          'observe the sign of a zero (two of them return -0.0, so later rows keep signed zeros), fixed and callable timesteps; '
@@ -322,7 +327,75 @@ def gen_signed_zero(rng, tier):
                'row': row, 'r': r, 'T': rng.randint(3, 5), 'dyn': (j // 4) % 2 == 1, 'rule': SZ_RULES[j % 3]}
 
 
+def asym_rule(rng, r, k):
+    """a pure Lin / Aff rule whose weights are NOT all congruent mod k: two neighbourhoods with the same sum of
+    cells (a permutation of one another) map to different values, so a cache keyed more coarsely than by the
+    contents (by the sum, by the multiset, ...) returns a wrong value"""
+    w = 2 * r + 1
+    ws = [rng.randint(0, 2 * k) for _ in range(w)]
+    i, j = rng.sample(range(w), 2)
+    ws[i], ws[j] = 1, 0
+    if rng.randrange(3) == 0:
+        return {'fam': 'aff', 'ws': ws, 'b': rng.randrange(1, k), 'm': k}
+    return {'fam': 'lin', 'ws': ws, 'm': k}
+
+
+def gen_dress(rng, tier):
+    """(d) the SHAPE of the rule callable (twins.dress, applied outermost: what evolve receives is a *args function,
+    a partial, a bound method, an instance of a user subclass of BaseRule / NKSRule / BinaryRule / TotalisticRule whose
+    __call__ is overridden, a rule returning a 0-d array / NumPy scalar / Python int, ...).  The behaviour is that of
+    the twin inside; the Coq side ignores the dressing.  memoize=True and 'recursive', fixed and callable timesteps,
+    rings that are not powers of two, radii up to N, rules that tell equal-sum neighbourhoods apart."""
+    mult = 1 if tier == 'quick' else 6
+    sizes = [3, 5, 6, 7, 9, 10, 11, 13]
+    for how in RULE_DRESSINGS:
+        n = (12 if how.startswith('sub:') else 6) * mult
+        for i in range(n):
+            mode = ('memo', 'recursive')[i % 2]
+            dyn = (i // 2) % 2 == 1
+            N = sizes[(i + rng.randrange(len(sizes))) % len(sizes)]
+            r = rng.choice([N, N - 1]) if i % 6 == 5 else rng.randint(1, min(N, 3))
+            if N > 7 and r > 4:
+                r = 4
+            k = 2 + (i // 4) % 2
+            call = mk_call(rng, N, r, rng.randint(3, 5), k, MODE_FORM[mode], dyn, 'random', rule=asym_rule(rng, r, k))
+            call['dress'] = how
+            yield {'kind': 'dress/%s/%s/%s' % (how, mode, 'callable' if dyn else 'fixed'), 'calls': [call]}
+
+
+def gen_objdtype(rng, tier):
+    """(e) dtype=object automata holding Python ints, small and beyond 64 bits ("every dtype"): all three modes,
+    fixed and callable timesteps.  The twins read object cells exactly (exact_int on Python ints); the moduli of the
+    'big' cases exceed 2**64, so every later row holds big ints too."""
+    n = 36 if tier == 'quick' else 240
+    for j in range(n):
+        mode = ('plain', 'memo', 'recursive')[j % 3]
+        dyn = (j // 3) % 2 == 1
+        big = (j // 6) % 2 == 1
+        N = rng.randint(2, 9)
+        r = rng.randint(1, min(N, 3))
+        T = rng.randint(2, 5)
+        H = rng.randint(1, 2)
+        if big:
+            m = 2 ** 64 + rng.choice([13, 2 ** 20 + 7, 2 ** 66, 2 ** 64])
+            cell = lambda: rng.choice([0, 1, 2 ** 64 + rng.randint(0, 5), 2 ** 70, -(2 ** 65) - 1, rng.randint(0, 3), 2 ** 64])
+            ws = [rng.choice([0, 1, 2, 3, 2 ** 33]) for _ in range(2 * r + 1)]
+            ws[rng.randrange(len(ws))] = 1
+        else:
+            m = rng.choice([2, 3, 5])
+            cell = lambda: rng.randrange(m)
+            ws = [rng.randint(-2, 3) for _ in range(2 * r + 1)]
+            ws[rng.randrange(len(ws))] = 1
+        rule = {'fam': 'lin', 'ws': ws, 'm': m} if j % 4 else {'fam': 'aff', 'ws': ws, 'b': 1 + (2 ** 65 if big else 0), 'm': m}
+        hist = [[cell() for _ in range(N)] for _ in range(H)]
+        yield {'kind': 'objdtype/%s/%s/%s' % ('big' if big else 'small', mode, 'callable' if dyn else 'fixed'),
+               'calls': [{'rule': rule, 'memo': MODE_FORM[mode], 'r': r, 'hist': hist, 'dtype': 'object',
+                          'ts': ['lt', T] if dyn else ['fixed', T]}]}
+
+
 def generate(rng, tier):
+    yield from gen_dress(rng, tier)
+    yield from gen_objdtype(rng, tier)
     yield from gen_outofrange(rng, tier)
     yield from gen_signed_zero(rng, tier)
     yield from gen_sweep(rng, tier)
@@ -339,9 +412,11 @@ def _to_int_rows(out):
         return None
     rows = out.tolist()
     try:
-        if not all(float(x) == int(x) for row in rows for x in row):
+        # Python ints (object-dtype automata, possibly beyond 64 bits) are exact as they are; everything else must
+        # be integer-valued
+        if not all(isinstance(x, int) or float(x) == int(x) for row in rows for x in row):
             return None
-    except (ValueError, OverflowError):
+    except (ValueError, OverflowError, TypeError):
         return None
     return [[int(x) for x in row] for row in rows]
 
@@ -372,7 +447,9 @@ def run_call(cpl, call, memo_value, rule=None):
     start = len(rule.log)
     kind, T = call['ts']
     ts = PredLt(T) if kind == 'lt' else T
-    res = call_impl(lambda: cpl.evolve(ca, timesteps=ts, apply_rule=rule, r=call['r'], memoize=memo_value))
+    # the dressing (shape of the callable only) goes outermost: it is what evolve receives; the logging twin is inside
+    fn = dress(rule, call.get('dress'))
+    res = call_impl(lambda: cpl.evolve(ca, timesteps=ts, apply_rule=fn, r=call['r'], memoize=memo_value))
     log = rule.log[start:]
     if res[0] != 'ok':
         return list(res), len(log), log
@@ -519,6 +596,8 @@ def shrink(c):
             yield dict(c, calls=calls[:i] + [dict(call, hist=call['hist'][-1:])] + calls[i + 1:])
         if call['dtype'] != 'int64':
             yield dict(c, calls=calls[:i] + [dict(call, dtype='int64')] + calls[i + 1:])
+        if call.get('dress'):
+            yield dict(c, calls=calls[:i] + [dict(call, dress=None)] + calls[i + 1:])
 
 
 # ------------------------------------------------------------------ source tie (appended; harness/translate.py)
